@@ -965,7 +965,8 @@ def _uncovered_operations(seen_ops: set, kernel_rows: set):
              "AddSequence": "addseq", "MultiplySequence": "mulseq", "ConvND": "conv", "MaxPoolND": "maxpool",
              "MarginRanking": "margin_ranking", "MulticlassHinge": "multiclass_hinge", "Sigmoid": "sigmoid", "Softmax": "softmax",
              "LogSoftmax": "logsoftmax", "SoftmaxCrossEntropy": "softmax_crossentropy", "ELU": "elu", "StdDev": "std",
-             "Norm": "norm", "BatchNorm": "batchnorm"}
+             "Norm": "norm", "BatchNorm": "batchnorm", "SELU": "selu", "AtLeast1D": "atleast", "AtLeast2D": "atleast",
+             "AtLeast3D": "atleast", "_AtLeastKD": "atleast"}
     out = []
     for c in sorted(set(subclasses(Operation)), key=lambda k: k.__name__):
         if getattr(c, "__abstractmethods__", None):
